@@ -910,7 +910,7 @@ func (r *awsChunkReadCloser) Read(p []byte) (n int, err error) {
 	if r.chunkBytesRemaining <= 0 {
 		chunkMetadata, err := r.innerBuf.ReadBytes('\n')
 		if err != nil {
-			return 0, err
+			return 0, unexpectedEOF(err)
 		}
 		split := bytes.SplitN(bytes.Trim(chunkMetadata, "\r\n"), []byte(";chunk-signature="), 2)
 		hexLen := string(split[0])
@@ -956,7 +956,7 @@ func (r *awsChunkReadCloser) Read(p []byte) (n int, err error) {
 			} else {
 				_, err := r.innerBuf.Discard(2) // Discard the final \r\n
 				if err != nil {
-					return 0, err
+					return 0, unexpectedEOF(err)
 				}
 			}
 			return 0, io.EOF // End of the chunked transfer
@@ -967,6 +967,7 @@ func (r *awsChunkReadCloser) Read(p []byte) (n int, err error) {
 		p = p[:r.chunkBytesRemaining] // Limit the read to the remaining bytes in the chunk
 	}
 	n, err = io.ReadFull(r.innerBuf, p)
+	err = unexpectedEOF(err)
 	if !r.skipChunkValidation {
 		r.chunkHasher.Write(p[:n])
 	}
@@ -977,7 +978,7 @@ func (r *awsChunkReadCloser) Read(p []byte) (n int, err error) {
 	if r.chunkBytesRemaining == 0 {
 		_, err := r.innerBuf.Discard(2) // Discard the trailing \r\n
 		if err != nil {
-			return 0, err
+			return 0, unexpectedEOF(err)
 		}
 		if !r.skipChunkValidation {
 			err = r.validateSignature()
@@ -987,6 +988,15 @@ func (r *awsChunkReadCloser) Read(p []byte) (n int, err error) {
 		}
 	}
 	return n, err
+}
+
+// unexpectedEOF turns the end of the underlying body into an error: an aws-chunked
+// body only ends after its terminating zero-length chunk (and trailer).
+func unexpectedEOF(err error) error {
+	if err == io.EOF {
+		return io.ErrUnexpectedEOF
+	}
+	return err
 }
 
 func (r *awsChunkReadCloser) Close() error {
